@@ -100,7 +100,7 @@ def canonicalize_half_turns(half_turns: sympy.Expr) -> sympy.Expr:
 def canonicalize_half_turns(half_turns: type_alias.TParamVal) -> type_alias.TParamVal:
     """Wraps the input into the range (-1, +1]."""
     if isinstance(half_turns, sympy.Expr):
-        if not half_turns.is_constant():
+        if half_turns.free_symbols or not half_turns.is_constant():
             return half_turns
         half_turns = float(half_turns)
     half_turns %= 2
